@@ -240,8 +240,8 @@ Definition barcode (own_lt : nat -> nat -> bool) (cells : list cell) : option (l
 Section LineSpec.
 Variable A : Type.
 Variable lt : A -> A -> bool.
-Variable dflt : A.
 Variable l : list A.
+Variable dflt : A.       (* only ever the first element of l, see [line_oracle] *)
 
 Definition val (i : nat) : A := nth i l dflt.
 (* ties broken by position: a total order on positions refining the values *)
@@ -257,7 +257,7 @@ Definition pair_lt (p q : A * A) : bool :=
   if lt (fst p) (fst q) then true else if lt (fst q) (fst p) then false else lt (snd p) (snd q).
 
 (* finite intervals of non-zero length as values, sorted; births of the infinite classes *)
-Definition line_oracle : option (list (A * A) * list A) :=
+Definition line_oracle_from : option (list (A * A) * list A) :=
   match barcode pos_lt path_cells with
   | None => None
   | Some prs =>
@@ -268,6 +268,11 @@ Definition line_oracle : option (list (A * A) * list A) :=
     Some (isort pair_lt fin, ess)
   end.
 End LineSpec.
+Definition line_oracle (A : Type) (lt : A -> A -> bool) (l : list A) : option (list (A * A) * list A) :=
+  match l with
+  | [] => Some ([], [])
+  | x :: _ => line_oracle_from A lt l x
+  end.
 
 (* the routine's answer in the same shape (pairs sorted) *)
 Definition line_canon {A} (lt : A -> A -> bool) (l : list A) : option (list (A * A) * list A) :=
@@ -278,7 +283,7 @@ Definition line_canon {A} (lt : A -> A -> bool) (l : list A) : option (list (A *
 
 Definition line_Z (l : list Z) := line Z Z.ltb l.
 Definition line_canon_Z (l : list Z) := line_canon Z.ltb l.
-Definition line_oracle_Z (l : list Z) := line_oracle Z Z.ltb 0%Z l.
+Definition line_oracle_Z (l : list Z) := line_oracle Z Z.ltb l.
 
 (* ------------------------------------------------------------------ (b) the cubical complex of a rectangle of top cells *)
 (* rows x cols squares, input in C order (square (x, y) = column x of row y has index y*cols + x).
